@@ -40,7 +40,7 @@ func init() {
 		ID: "C02", Title: "csync locks: grantable waiters are granted, cancelled waiters leave no trace",
 		Sels: []Sel{
 			{Run: "R2", Scope: []string{"csync", "broadcast"}, Rules: []string{"R2a", "R2b", "R2c", "R2d"}, Prefixes: []string{"csync."}},
-			{Run: "Gcsync", Rules: []string{"R12"}, Contains: []string{"writeWaiting", "grant(nreaders++)", "return-failure", "release-called"}},
+			{Run: "Gcsync", Rules: []string{"R12"}, Contains: []string{"writeWaiting", "grant(nreaders++)", "return-failure", "release-called", "ungrant("}},
 			{Run: "R17", Scope: []string{"csync"}, Rules: []string{"R17", "R2f"}},
 		},
 		Floors:      map[string]int{"R2a": 2, "R2b": 10, "R2c": 2, "R12": 9},
@@ -68,10 +68,12 @@ func init() {
 		ID: "C04", Title: "routine: at most one instance of the managed function executes at a time",
 		Sels: []Sel{
 			{Run: "R3", Scope: []string{"routine"}, Prefixes: []string{"routine."}},
+			{Run: "Groutine", Rules: []string{"R12"}, Contains: []string{"status-writes"}},
+			{Run: "Groutine", Rules: []string{"R5b"}},
 			{Run: "Groutine", Rules: []string{"R4"}},
 		},
 		Floors:      map[string]int{"R3a": 2, "R3b": 4, "R3c": 1, "R3d": 2, "R4": 2},
-		Explanation: "Exit-channel chain of routine: execute receives from the predecessor's channel before it calls the user function and before it closes its own channel on every path (R3a); start passes a fresh channel, stored in the record in the same section (R3c); every start site forwards a chain value read before it is cleared (R3b); SetRoutine(nil)/no-context paths keep the detached routine's channel for the next start (R3d); predecessors are cancelled before they are superseded (R4)." + structural,
+		Explanation: "Exit-channel chain of routine: execute receives from the predecessor's channel before it calls the user function and before it closes its own channel on every path (R3a); start passes a fresh channel, stored in the record in the same section (R3c); every start site forwards a chain value read before it is cleared (R3b); SetRoutine(nil)/no-context paths keep the detached routine's channel for the next start (R3d); predecessors are cancelled before they are superseded (R4); an exiting instance writes the record's status and chain field only while it is the current instance (a superseded instance must not wipe its successor's exit channel), and the retry timer restarts only the record that is still registered (R12 status-writes, R5b)." + structural,
 		NotDecided:  "that user functions honour cancellation; exit latency.",
 		Assumptions: []string{A1, A3, A4},
 		Technique:   "exit-channel-chain analysis (must-precede on paths, provenance dataflow of wait channels)",
@@ -93,7 +95,7 @@ func init() {
 		ID: "C06", Title: "keyed: the key set equals what Set/Remove/Sync/refs asked for, delays included",
 		Sels: []Sel{
 			{Run: "Gkeyed", Rules: []string{"R6b", "R16"}},
-			{Run: "Gkeyed", Rules: []string{"R5b", "R12"}, Contains: []string{"AddKeyRef", "Release"}, Topics: []string{"removal"}},
+			{Run: "Gkeyed", Rules: []string{"R5b", "R12"}, Contains: []string{"AddKeyRef", "Release", "RemoveKey"}, Topics: []string{"removal"}},
 			{Run: "R1", Scope: []string{"keyed"}, Rules: []string{"R1a"}, Prefixes: []string{"keyed.Keyed", "keyed.KeyedRefCount", "keyed.runningRoutine.deferRemove"}},
 		},
 		Floors:      map[string]int{"R6b": 2, "R16": 2, "R12": 4, "R5b": 2},
@@ -147,13 +149,14 @@ func init() {
 		ID: "C10", Title: "refcount: consumers get the current value, are cancelled when it is invalidated",
 		Sels: []Sel{
 			{Run: "Grefcount", Rules: []string{"R12", "R13e"}, Contains: []string{"Access", "Wait", "Resolve/", "ResolveWithReleased", "released"}},
+			{Run: "Grefcount", Rules: []string{"R7"}, Contains: []string{"begins-with-shutdown", "generation-bump"}},
 			{Run: "R2", Scope: []string{"refcount", "broadcast"}, Rules: []string{"R2a", "R2b", "R2c", "R2d"}, Prefixes: []string{"refcount."}},
 			{Run: "R2", Scope: []string{"promise", "broadcast"}, Rules: []string{"R2a", "R2b", "R2c"}, Prefixes: []string{"promise.(*PromiseContainer)"}},
 			{Run: "R17", Scope: []string{"refcount"}, Rules: []string{"R17", "R2f"}, Prefixes: []string{"refcount.(*RefCount).Access"}},
 			{Run: "R1", Scope: []string{"refcount", "promise", "broadcast", "ccontainer"}, Rules: []string{"R1b", "R1c", "R1d"}, Prefixes: []string{"refcount."}},
 		},
 		Floors:      map[string]int{"R12": 9, "R2a": 1, "R2c": 1, "R1b": 7, "R1c": 1},
-		Explanation: "Access hands its callback the value sampled together with its subscription, cancels the callback context from a watcher when the wait channel fires (cbCancel deferred), and returns the callback's result only when a generation comparison made under the lock after the callback returned found the generation unchanged; Wait/Resolve/ResolveWithReleased release the reference only on the error path; released() re-resolves exactly when the generation is unchanged; the locals shared with reference callbacks are protected by the callback-field contract (Ref.cb runs under mtx)." + structural,
+		Explanation: "Access hands its callback the value sampled together with its subscription, cancels the callback context from a watcher when the wait channel fires (cbCancel deferred), and returns the callback's result only when a generation comparison made under the lock after the callback returned found the generation unchanged; Wait/Resolve/ResolveWithReleased release the reference only on the error path; released() re-resolves exactly when the generation is unchanged, and every restart of the resolution first drops the previous value and bumps the generation (also with no reference left: a kept value must not outlive its invalidation); the locals shared with reference callbacks are protected by the callback-field contract (Ref.cb runs under mtx)." + structural,
 		NotDecided:  "'promptly'; the sequence-of-values claim; exactly-once firing of the released callback beyond the sync.Once wiring.",
 		Assumptions: []string{A1, A3, A4},
 		Technique:   "guarded-effect + waiter-discipline analysis + static lockset of shared locals",
@@ -161,13 +164,13 @@ func init() {
 	add(&Property{
 		ID: "C11", Title: "promise: resolved at most once, every awaiter sees that result and returns",
 		Sels: []Sel{
-			{Run: "Gpromise", Rules: []string{"R9"}},
+			{Run: "Gpromise", Rules: []string{"R9", "R6a"}},
 			{Run: "R2", Scope: []string{"promise", "broadcast"}, Rules: []string{"R2a", "R2b", "R2c", "R2d"}, Prefixes: []string{"promise."}},
 			{Run: "R17", Scope: []string{"promise"}, Rules: []string{"R17", "R2f"}, Prefixes: []string{"promise.(*Promise)", "promise.(*PromiseContainer)"}, Exclude: []string{"return-received-error"}},
 			{Run: "R1", Scope: []string{"promise"}, Rules: []string{"R1a", "R1d"}, Prefixes: []string{"promise.Promise", "promise.PromiseContainer"}},
 		},
 		Floors:      map[string]int{"R9": 8, "R2a": 3, "R2b": 2, "R2c": 3, "R1d": 2},
-		Explanation: "Promise.SetResult stores the result and closes done only after winning isDone.Swap(true) and returns true exactly there; the result fields are read only behind a receive from done (R1d); each Await* is one blocking select whose done arm alone returns the result; PromiseContainer awaiters sample the promise with their subscription, are woken by every replacement (SetPromise/SetResult broadcast on change), re-sample only after a consumed wake-up — including when the result's error is context.Canceled — and return context.Canceled only when their context fired; every blocking site listens to the context and to the error/cancel channel (R2f)." + structural,
+		Explanation: "Promise.SetResult stores the result and closes done only after winning isDone.Swap(true) and returns true exactly there; the result fields are read only behind a receive from done (R1d); each Await* is one blocking select whose done arm alone returns the result; PromiseContainer awaiters sample the promise with their subscription, are woken by every replacement (SetPromise/SetResult broadcast on change), re-sample only after a consumed wake-up — including when the result's error is context.Canceled — and return context.Canceled only when their context fired; every blocking site listens to the context and to the error/cancel channel (R2f); a method is called on the sampled promise only after a nil test of that sample; every function that closes done also sets isDone (pre-resolved promises refuse a later SetResult)." + structural,
 		NotDecided:  "that awaiters are scheduled; CPU time as a quantity; whether a nil value received from an error channel should end an await (the three promise awaiters return it; not claimed either way).",
 		Assumptions: []string{A3},
 		Technique:   "single-assignment/publication rules + waiter discipline + interruption-source coverage",
@@ -204,9 +207,10 @@ func init() {
 			{Run: "Gbackoff", Rules: []string{"R12"}},
 			{Run: "R2", Scope: []string{"routine", "broadcast"}, Rules: []string{"R2a", "R2b", "R2c"}, Prefixes: []string{"routine."}},
 			{Run: "R17", Scope: []string{"routine"}, Rules: []string{"R17", "R2f"}},
+			{Run: "R1", Scope: []string{"routine"}, Rules: []string{"R1a"}, Prefixes: []string{"routine.runningRoutine.", "routine.RoutineContainer."}},
 		},
-		Floors:      map[string]int{"R12": 12, "R5b": 2, "R5c": 3, "R2a": 1, "R2b": 8, "R17": 3},
-		Explanation: "A nil-returning routine is spawned again only under forceRestart, which is a constant at every call site and true only in restartRoutineLocked and the retry timer; SetContext restarts errored routines only with restart; exit status, exit callbacks and retry arming happen only for the still-current instance (r.ctx == ctx) under the lock; the retry timer is armed exactly when retry is configured, the exit failed, the record is registered and the back-off is not Stop, and success resets the back-off; the timer restarts only a registered, exited record; no API path stops a pending retry without (re)starting, detaching or re-arming. WaitExited samples the current record in its subscribing section, is woken by every status change, and returns an error-channel value only when it is an error." + structural,
+		Floors:      map[string]int{"R12": 12, "R5b": 2, "R5c": 3, "R2a": 1, "R2b": 8, "R17": 3, "R1a": 10},
+		Explanation: "A nil-returning routine is spawned again only under forceRestart, which is a constant at every call site and true only in restartRoutineLocked and the retry timer; SetContext restarts errored routines only with restart; exit status, exit callbacks and retry arming happen only for the still-current instance (r.ctx == ctx) under the lock; the retry timer is armed exactly when retry is configured, the exit failed, the record is registered and the back-off is not Stop, and success resets the back-off; the timer restarts only a registered, exited record; no API path stops a pending retry without (re)starting, detaching or re-arming. WaitExited samples the current record in its subscribing section, is woken by every status change, and returns an error-channel value only when it is an error. The exit callbacks are handed the value the routine returned (not a field read later); the status fields are accessed under the container lock only (R1a); WithRetry constructs its back-off inside the option, once per container." + structural,
 		NotDecided:  "run counts and the correspondence with a reference state machine over histories; the pointer-typed parts of WaitExited's condition (ctx, routine) in R2b; back-off values.",
 		Assumptions: []string{A1, A2, A3, A4, A5},
 		Technique:   "guarded-effect analysis with iff-guards, who-may-pass-constant check, waiter discipline",
@@ -229,11 +233,11 @@ func init() {
 		ID: "C16", Title: "Once/MemoizeFunc: one call in flight, success kept forever, failure retried",
 		Sels: []Sel{
 			{Run: "Gpromise", Rules: []string{"R8"}},
-			{Run: "R1", Scope: []string{"promise", "memo"}, Rules: []string{"R1a", "R1b", "R1d"}, Prefixes: []string{"promise.Once", "promise.(*Once)", "memo."}},
+			{Run: "R1", Scope: []string{"promise", "memo"}, Rules: []string{"R1a", "R1b", "R1d"}, Prefixes: []string{"promise.Once", "promise.(*Once)", "memo.", "promise.Promise."}},
 			{Run: "R17", Scope: []string{"promise"}, Rules: []string{"R17", "R2f"}, Prefixes: []string{"promise.(*Once)"}},
 		},
 		Floors:      map[string]int{"R8": 9, "R1a": 1},
-		Explanation: "Once: the callback goroutine is spawned only under o.prom == nil in the section that stores the new promise; o.prom is cleared only under the lock, the identity test and the callback's own non-nil error, after the callback returned; every path of the goroutine completes the promise; every trip around Resolve's loop tests the caller's context, which is the only source of its context.Canceled. MemoizeFunc: fn is called only by the winner of started.Swap(true) with close(done) deferred first; the other callers read the result behind <-done (R1d)." + structural,
+		Explanation: "Once: the callback goroutine is spawned only under o.prom == nil in the section that stores the new promise; o.prom is cleared only by the callback goroutine, under the lock, the identity test and the callback's own non-nil error, after the callback returned; every path of the goroutine completes the promise; every trip around Resolve's loop tests the caller's context, which is the only source of its context.Canceled. MemoizeFunc: fn is called only by the winner of started.Swap(true) with close(done) deferred first; the other callers read the result behind <-done (R1d)." + structural,
 		NotDecided:  "'every caller receives that call's result' as a value statement; that the callback terminates.",
 		Assumptions: []string{A3, A4},
 		Technique:   "single-flight election rules (guards with definition provenance) + publication idiom",
